@@ -948,3 +948,104 @@ Proof.
     rewrite H3 in Hs. destruct Hs as [Hs|[]]. intros Hk. unfold sig_of in Hs. rewrite Hk in Hs.
     simpl in Hs. discriminate.
 Qed.
+
+(* ---------- an accepted delta is pending or confirmed while the process lives ---------- *)
+Lemma read_segs_crashed v (w : world obj) segs a w' r :
+  read_segs v w segs a = (w', r) → w_crashed w = true → w_crashed w' = true.
+Proof.
+  revert w a. induction segs as [|s segs IH]; intros w a; simpl.
+  { by intros [= <- <-]. }
+  destruct (st_get w (si_key s)) as [w1 g] eqn:Hg.
+  apply st_get_spec in Hg as (_ & _ & _ & Hm).
+  destruct g as [[[[]|]|]| |]; try (intros H Hc; apply (IH _ _ H); auto); try (intros [= <- <-]; auto).
+  destruct (v_strict_get v); [intros [= <- <-]; auto|intros H Hc; apply (IH _ _ H); auto].
+Qed.
+
+Lemma delete_all_crashed (w : world obj) ns w' dead :
+  delete_all w ns = (w', dead) → w_crashed w = true → w_crashed w' = true.
+Proof.
+  revert w. induction ns as [|n ns IH]; intros w; simpl.
+  { by intros [= <- <-]. }
+  destruct (st_delete w n) as [w1 g] eqn:Hd. apply st_delete_spec in Hd as (_ & _ & Hm).
+  destruct g; try (intros H Hc; apply (IH _ H); auto). intros [= <- <-]. auto.
+Qed.
+
+Lemma compact_crashed v c now sz (w : world obj) w' r :
+  compact v c now sz w = (w', r) → w_crashed w = true → w_crashed w' = true.
+Proof.
+  unfold compact. destruct (load_or_create w 0) as [w1 r1] eqn:Hl.
+  apply load_or_create_spec in Hl as (_ & _ & _ & M1).
+  destruct r1 as [m| |]; [|intros [= <- <-]; auto 10..]. unfold compact_rest.
+  destruct (_ <? _). { intros [= <- <-]; auto 10. }
+  destruct (read_segs _ _ _ _) as [w2 r2] eqn:Hr. pose proof (read_segs_crashed _ _ _ _ _ _ Hr) as M2.
+  destruct r2 as [a| |]; [|intros [= <- <-]; auto 10..].
+  destruct (_ && _).
+  { destruct (save w2 _) as [w3 r3] eqn:Hs. apply save_spec in Hs as (_ & _ & _ & _ & M3).
+    intros [= <- <-]. auto 10. }
+  destruct (_ <? _). { intros [= <- <-]; auto 10. }
+  destruct (compact_out _ _).
+  - destruct (save w2 _) as [w3 r3] eqn:Hs. apply save_spec in Hs as (_ & _ & _ & _ & M3).
+    destruct r3 as [[]| |]; [|intros [= <- <-]; auto 10..].
+    destruct (delete_all w3 _) as [w4 dead] eqn:Hd. pose proof (delete_all_crashed _ _ _ _ Hd) as M4.
+    intros [= <- <-]. auto 10.
+  - destruct (st_put w2 _ _) as [w3 r3] eqn:Hp. apply st_put_spec in Hp as (_ & _ & _ & M3).
+    destruct r3 as [[]| |]; [|intros [= <- <-]; auto 10..].
+    destruct (negb _). { intros [= <- <-]; auto 10. }
+    destruct (save w3 _) as [w4 r4] eqn:Hs. apply save_spec in Hs as (_ & _ & _ & _ & M4).
+    destruct r4 as [[]| |]; [|intros [= <- <-]; auto 10..].
+    destruct (delete_all w4 _) as [w5 dead] eqn:Hd. pose proof (delete_all_crashed _ _ _ _ Hd) as M5.
+    intros [= <- <-]. auto 10.
+Qed.
+
+Lemma flush_acc v p sz (w : world obj) p' w' r :
+  v_restore v = true → flush v p sz w = (p', w', r) →
+  (w_crashed w = true → w_crashed w' = true) ∧
+  (r = FCrash → w_crashed w' = true) ∧
+  (ps_acc p = ps_conf p ++ ps_buf p → r ≠ FCrash → r ≠ FPanic →
+   ps_acc p' = ps_conf p' ++ ps_buf p').
+Proof.
+  intros Hv. unfold flush. rewrite Hv. destruct (ps_buf p) as [|d0 ds0] eqn:Hb.
+  { intros [= <- <- <-]. rewrite Hb. repeat split; auto; discriminate. }
+  destruct (load_or_create w (ps_rid p)) as [w1 r1] eqn:Hl.
+  apply load_or_create_spec in Hl as (_ & _ & C1 & M1).
+  destruct r1 as [m| |].
+  2: { intros [= <- <- <-]. rewrite Hb. repeat split; auto; discriminate. }
+  2: { intros [= <- <- <-]. repeat split; auto; try done. }
+  unfold alloc_id. destruct (negb (man_ok _)).
+  { intros [= <- <- <-]. repeat split; auto; try discriminate. done. }
+  destruct (st_put w1 _ _) as [w2 r2] eqn:Hp. apply st_put_spec in Hp as (_ & _ & C2 & M2).
+  destruct r2 as [[]| |].
+  2: { intros [= <- <- <-]. rewrite Hb. repeat split; auto; discriminate. }
+  2: { intros [= <- <- <-]. repeat split; auto; try done. intros _. by apply C2. }
+  destruct (negb (man_ok _)).
+  { intros [= <- <- <-]. repeat split; auto; try discriminate. done. }
+  destruct (save w2 _) as [w3 r3] eqn:Hs. apply save_spec in Hs as (_ & _ & _ & C3 & M3).
+  destruct r3 as [[]| |]; intros [= <- <- <-]; simpl.
+  - repeat split; auto; try discriminate. intros ->. by rewrite app_nil_r.
+  - rewrite Hb. repeat split; auto; discriminate.
+  - repeat split; auto; try done.
+Qed.
+
+Lemma accepted_lemma c rid st0 ops io :
+  v_restore (pc_var c) = true →
+  let s := run_persist c rid st0 ops io in
+  w_crashed (s_w s) = false → ps_acc (s_p s) = ps_conf (s_p s) ++ ps_buf (s_p s).
+Proof.
+  intros Hv. unfold run_persist.
+  assert (H : ∀ s, (w_crashed (s_w s) = false → ps_acc (s_p s) = ps_conf (s_p s) ++ ps_buf (s_p s)) →
+     let s' := fold_left (wstep c) ops s in
+     w_crashed (s_w s') = false → ps_acc (s_p s') = ps_conf (s_p s') ++ ps_buf (s_p s')).
+  { induction ops as [|op ops IH]; intros s HJ; simpl; [done|]. apply IH.
+    destruct op as [d|sz|now sz]; simpl.
+    - unfold push. destruct (_ <=? _); simpl; [done|]. intros Hc. rewrite (HJ Hc). by rewrite app_assoc.
+    - destruct (flush (pc_var c) (s_p s) sz (s_w s)) as [[p w] r] eqn:Hf. simpl.
+      destruct (flush_acc _ _ _ _ _ _ _ Hv Hf) as (M & C & A).
+      destruct r; simpl; intros Hc; try (apply A; try discriminate; apply HJ;
+        destruct (w_crashed (s_w s)) eqn:E; [by rewrite M in Hc|done]).
+      + by rewrite C in Hc.
+      + discriminate.
+    - destruct (compact (pc_var c) (pc_cc c) now sz (s_w s)) as [w r] eqn:Hc'. simpl.
+      pose proof (compact_crashed _ _ _ _ _ _ _ Hc') as M. intros Hc. apply HJ.
+      destruct (w_crashed (s_w s)) eqn:E; [|done]. destruct r; simpl in Hc; try (by rewrite M in Hc). discriminate. }
+  apply H. simpl. done.
+Qed.
